@@ -41,27 +41,32 @@ Definition within (lo up : option time) (ta : time) : bool :=
   (match lo with Some l => negb (t_before ta l) | None => true end) &&
   (match up with Some u => negb (t_after ta u) | None => true end).
 
-(* predicate part of a clause against a predicate value: a constant (same id, kind and instant), or an id with an
-   anchor binding / interval (temporal only, inside the interval), or free *)
-Definition pred_part_ok (const : option pred) (id : str) (lo up : option time) (p : pred) : bool :=
+(* predicate part of a clause against a predicate value: a constant (same id, kind and instant); or an id with an
+   interval (temporal only, inside the interval); or an id with an anchor binding (temporal only - except inside an
+   OPTIONAL clause, where an immutable predicate of that id matches with a NULL anchor, as tripleToRow documents); or free *)
+Definition pred_part_ok (opt : bool) (const : option pred) (id ancb : str) (lo up : option time) (p : pred) : bool :=
   match const with
   | Some q => pred_key_eqb q p
   | None => if is_empty id then true
             else str_eqb (pid p) id &&
-                 match panchor p with Some ta => within lo up ta | None => false end
+                 match panchor p with
+                 | Some ta => if is_empty ancb then within lo up ta else true
+                 | None => opt && negb (is_empty ancb)
+                 end
   end.
 
 Definition consts_ok (c : clause) (glo : lopts) (t : triple) : bool :=
   (match cS c with Some s => node_eqb s (tsub t) | None => true end) &&
-  pred_part_ok (cP c) (cPID c) (cPLo c) (cPUp c) (tpred t) &&
+  pred_part_ok (c_opt c) (cP c) (cPID c) (cPAncB c) (cPLo c) (cPUp c) (tpred t) &&
   (* global BEFORE / AFTER / BETWEEN: temporal triples only *)
   (match panchor (tpred t) with Some ta => within (lo_lower glo) (lo_upper glo) ta | None => true end) &&
   (match cO c with
    | Some o => obj_key_eqb o (tobj t)
    | None => if is_empty (cOID c) then true
              else match tobj t with
-                  | OPred p => pred_part_ok None (cOID c) (cOLo c) (cOUp c) p
-                  | _ => false
+                  | OPred p => pred_part_ok (c_opt c) None (cOID c) (cOAncB c) (cOLo c) (cOUp c) p
+                  (* inside an OPTIONAL clause an anchor binding on a non-predicate object is NULL (tripleToRow) *)
+                  | _ => c_opt c && negb (is_empty (cOAncB c))
                   end
    end).
 
